@@ -202,7 +202,15 @@ def isUrlChar (c : Char) : Bool := c.isAlphanum || c = '-' || c = '_'
 
 /-- client data as the relying party checks it: a JSON object whose `type`, `challenge` (unpadded
 base64url of the request's challenge) and `origin` members are as expected, each present once -/
-def rpClientData (cdj : Bytes) (ty : String) (challenge : Bytes) (origin : String) : Option String :=
+def extraKeysOf (mode : ClientDataMode) : Option (List String) :=
+  match mode with
+  | .extra members => if members.isEmpty then some [] else
+      match Json.parse ("{" ++ members ++ "}") with | some (.obj l) => some (l.map (·.1)) | _ => none
+  | _ => some []
+
+/-- ... and (C14's order clause, on what the client emits) whose members are type, challenge, origin, crossOrigin in that
+order followed by the caller's extra members in the order the caller gave them -/
+def rpClientData (cdj : Bytes) (ty : String) (challenge : Bytes) (origin : String) (mode : ClientDataMode := .default) : Option String :=
   match (utf8Str cdj).bind Json.parse with
   | none => some "client-data-not-json"
   | some j =>
@@ -215,7 +223,11 @@ def rpClientData (cdj : Bytes) (ty : String) (challenge : Bytes) (origin : Strin
         else if (j.get? "origin").bind Json.Json.str? != some origin then some "client-data-origin"
         else match j.get? "crossOrigin" with
           | some (.bool true) => some "client-data-cross-origin-true"
-          | _ => none
+          | _ =>
+            match extraKeysOf mode, j with
+            | some ks, .obj l =>
+              if l.map (·.1) != ["type", "challenge", "origin", "crossOrigin"] ++ ks then some "client-data-members-not-in-the-specified-order" else none
+            | _, _ => none
 
 def hostOf (o : RpId.Origin) : Option Psl.Str := match o with | .web _ d => d | .android h => some h
 def effectiveRp (o : RpId.Origin) (rp : Option Psl.Str) : Option Bytes := (rp.orElse (fun _ => hostOf o)).map (·.map UInt8.ofNat)
@@ -262,7 +274,7 @@ def c02_register (cfg : Cfg) (kind : StoreKind) (origin : RpId.Origin) (originSt
     match effectiveRp origin req.rpId with
     | none => some "no-effective-rp-id"
     | some rp =>
-    match rpClientData r.clientDataJson "webauthn.create" req.challenge originStr with
+    match rpClientData r.clientDataJson "webauthn.create" req.challenge originStr mode with
     | some f => some f
     | none =>
     match rpAttestation r.attObj with
@@ -332,7 +344,7 @@ def c03_authenticate (kind : StoreKind) (uv : UvCfg) (origin : RpId.Origin) (ori
     match effectiveRp origin req.rpId with
     | none => some "no-effective-rp-id"
     | some rp =>
-    match rpClientData r.clientDataJson "webauthn.get" req.challenge originStr with
+    match rpClientData r.clientDataJson "webauthn.get" req.challenge originStr mode with
     | some f => some f
     | none =>
     match rpParseAuthData r.authData with
